@@ -215,7 +215,7 @@ def attribute(res, env_seed, pool, max_steps, K):
         return br[0][0], {"event": list(br[0][1])}
     if tm.clobbers:
         c = tm.clobbers[0]
-        return clobber_signature(c), {"clobber": c}
+        return clobber_signature(c, v["instructions"]), {"clobber": c}
     return None, {}
 
 
@@ -223,7 +223,17 @@ DEVICE_FIRST_INPUT = {"l", "s", "ls", "ss", "lr", "get", "put", "getd", "putd", 
                       "bdse", "bdns", "brdse", "brdns", "bdseal", "bdnsal", "rmap", "bdnvl", "bdnvs"}
 
 
-def clobber_signature(c):
+def is_return_register_of(instructions, vreg, scope):
+    """the virtual register is written only by code of `scope` and read by code of another scope: it carries
+    the value of an inlined `scope` to the function that hosts it"""
+    if not instructions or not vreg:
+        return False
+    writers = {r.get("scope") or "" for r in instructions if r.get("out") == vreg}
+    readers = {r.get("scope") or "" for r in instructions if vreg in (r.get("ins") or [])}
+    return writers == {scope} and any(x != scope for x in readers)
+
+
+def clobber_signature(c, instructions=None):
     """relation between the scope that wrote the register last and the scope that expected its own
     value there.  `scope` = source function of the instruction, `region` = emitted function it sits in;
     they differ exactly for inlined code."""
@@ -240,6 +250,10 @@ def clobber_signature(c):
         rel = "inlined-callee-x-caller"  # writer is inlined code sitting in the reader's emitted function
     elif rs != rr and rr == wr:
         rel = "caller-x-inlined-callee"
+    elif rr != wr and ws != wr and is_return_register_of(instructions, c.get("found"), ws):
+        # second face of F-D23: the return register of a function that was inlined into a *called* function is
+        # coloured by source-line ranges of the enclosing scope and collides with a value of the caller
+        rel = "return-register-of-callee-inlined-into-called-function-x-caller"
     elif rr != wr:
         rel = "called-function-x-caller"
     else:
